@@ -366,6 +366,42 @@ def interval_at(fn: ast.FunctionDef, var: str, site: ast.AST, seed, const_ev):
     return (min(i[0] for i in ivs), max(i[1] for i in ivs))
 
 
+# standard-library functions that raise on part of their argument domain: exception, number of arguments from which the call is
+# total (a default is given; None = never), what the partial domain is
+EXT_RAISERS = {
+    'unicodedata.name': ('ValueError', 2, 'code points without a name (controls, unassigned, surrogates) raise unless a default is given'),
+    'unicodedata.digit': ('ValueError', 2, 'characters that are not digits raise unless a default is given'),
+    'unicodedata.decimal': ('ValueError', 2, 'characters that are not decimals raise unless a default is given'),
+    'unicodedata.numeric': ('ValueError', 2, 'characters without a numeric value raise unless a default is given'),
+    'unicodedata.lookup': ('KeyError', None, 'unknown character names raise'),
+    'json.loads': ('ValueError', None, 'text that is not JSON raises'),
+    'ast.literal_eval': ('ValueError', None, 'text that is not a literal raises (SyntaxError as well)'),
+    'codecs.lookup': ('LookupError', None, 'unknown encodings raise'),
+    'codecs.decode': ('UnicodeDecodeError', None, 'undecodable bytes raise'),
+    'codecs.encode': ('UnicodeEncodeError', None, 'unencodable text (lone surrogates) raises'),
+    'math.sqrt': ('ValueError', None, 'negative arguments raise'),
+    'math.log': ('ValueError', None, 'arguments <= 0 raise'),
+    'math.log10': ('ValueError', None, 'arguments <= 0 raise'),
+    'math.log2': ('ValueError', None, 'arguments <= 0 raise'),
+    'math.factorial': ('ValueError', None, 'negative arguments raise'),
+    'decimal.Decimal': ('ArithmeticError', None, 'text that is not a number raises InvalidOperation'),
+    'fractions.Fraction': ('ValueError', None, 'text that is not a fraction raises'),
+    'ipaddress.ip_address': ('ValueError', None, 'text that is not an address raises'),
+    'uuid.UUID': ('ValueError', None, 'text that is not a UUID raises'),
+    'base64.b64decode': ('ValueError', None, 'malformed input raises binascii.Error'),
+    'binascii.unhexlify': ('ValueError', None, 'malformed input raises binascii.Error'),
+    'bytes.fromhex': ('ValueError', None, 'malformed input raises'),
+    'operator.index': ('TypeError', None, 'non-integers raise'),
+    'time.strptime': ('ValueError', None, 'text that does not match the format raises'),
+    'struct.unpack': ('error', None, 'a buffer of the wrong size raises'),
+    'importlib.import_module': ('ImportError', None, 'unknown modules raise'),
+    'locale.setlocale': ('error', None, 'unsupported locales raise'),
+    'shlex.split': ('ValueError', None, 'unbalanced quotes raise'),
+    'urllib.parse.urlsplit': ('ValueError', None, 'malformed IPv6 netlocs raise'),
+    'urllib.parse.urlparse': ('ValueError', None, 'malformed IPv6 netlocs raise'),
+}
+
+
 class ExcFlow:
     def __init__(self, ctx, cg):
         self.ctx = ctx
@@ -594,6 +630,20 @@ class ExcFlow:
                 add('UnicodeDecodeError', 'decode', n, f'errors={errs!r}' if ok else None)
             elif cn == 'next' and len(n.args) == 1:
                 add('StopIteration', 'next', n)
+            elif self.ext_name(mod, n) in EXT_RAISERS:
+                # a standard-library function that raises on part of its domain, called with a run-time argument
+                xn = self.ext_name(mod, n)
+                exc, safe_arity, what = EXT_RAISERS[xn]
+                nargs = len(n.args) + len(n.keywords)
+                if any(ev_const(a) is None for a in n.args) or not n.args:
+                    ok = safe_arity is not None and nargs >= safe_arity
+                    add(exc, 'stdlib', n, f'{xn} called with its default argument' if ok else None).text += '' if ok else f'  [{xn}: {what}]'
+            elif isinstance(n.func, ast.Attribute) and n.func.attr == 'encode' and not isinstance(ev_const(n.func.value), str) \
+                    and self._maybe_str(mod, n.func.value):
+                has_err = len(n.args) > 1 or any(k.arg == 'errors' for k in n.keywords)
+                errs = ev_const(n.args[1]) if len(n.args) > 1 else next((ev_const(k.value) for k in n.keywords if k.arg == 'errors'), None)
+                ok = has_err and errs in ('replace', 'ignore', 'backslashreplace', 'surrogateescape', 'surrogatepass', 'xmlcharrefreplace', 'namereplace')
+                add('UnicodeEncodeError', 'encode', n, f'errors={errs!r}' if ok else None)
             elif cn == 're.compile':
                 r = [x for x in self.inv.regexes if x.node is n]
                 unresolved = [u for u in self.inv.unresolved if u[0] == mod.where(n)]
@@ -911,6 +961,24 @@ class ExcFlow:
                     out |= vals
                     n_sites += 1
         return out if n_sites else None
+
+    def ext_name(self, mod, call):
+        """'module.function' when the callee is a function of a module outside the package (import x / import x as y / from x import f)."""
+        f = call.func
+        if isinstance(f, ast.Attribute) and isinstance(f.value, ast.Name):
+            a = mod.aliases.get(f.value.id)
+            if a and a[0] == 'module' and not a[2]:
+                return f'{a[1]}.{f.attr}'
+        if isinstance(f, ast.Name):
+            a = mod.aliases.get(f.id)
+            if a and a[0] == 'symbol' and not a[3]:
+                return f'{a[1]}.{a[2]}'
+        return None
+
+    def _maybe_str(self, mod, e):
+        t = self.ctx.types.type_of(mod.name, e)
+        names = self.ctx.types.instance_names(t) if t is not None else []
+        return not names or any(x in ('str', 'Any') for x in names)
 
     def dt_names(self, mod):
         out = set()
